@@ -207,6 +207,17 @@ func panicFunc(s *scope) string {
 	return s.pkgID
 }
 
+// callDeferred runs one deferred call. If it panics, the new panic replaces the
+// one in flight and the remaining deferred calls of the frame still run.
+func callDeferred(f *frame, val []reflect.Value) {
+	defer func() {
+		if r := recover(); r != nil {
+			f.recovered = r
+		}
+	}()
+	val[0].Call(val[1:])
+}
+
 // runCfg executes a node AST by walking its CFG and running node builtin at each step.
 func runCfg(n *node, f *frame, funcNode, callNode *node) {
 	var exec bltn
@@ -214,7 +225,7 @@ func runCfg(n *node, f *frame, funcNode, callNode *node) {
 		f.mutex.Lock()
 		f.recovered = recover()
 		for _, val := range f.deferred {
-			val[0].Call(val[1:])
+			callDeferred(f, val)
 		}
 		if f.recovered != nil {
 			oNode := originalExecNode(n, exec)
